@@ -254,3 +254,67 @@ class Objective(Contract):
         # least_squares receives what the scheme says
         call = out.trace.calls[0]
         yield "least_squares_called_once_with_method", len(out.trace.calls) == 1 and call["method"] == "trf"
+
+
+class IsLinkable(Contract):
+    """DatasetGroup.is_linkable: true iff no global model, one model dimension and one global dimension;
+    OptimizationGroup follows it when link_clp is left to auto."""
+
+    prop = "C02"
+    name = "IsLinkable"
+    target = "glotaran.model.dataset_group:DatasetGroup.is_linkable"
+    functions = ("glotaran.optimization.optimization_group:OptimizationGroup.__init__", "glotaran.model.dataset_model:get_dataset_model_model_dimension", "glotaran.model.dataset_model:has_dataset_model_global_model")
+    modules = PIPE_MODS
+    trusted = TRUSTED_PIPE
+    strength = "S"
+    agreement_runs = 0
+
+    def cases(self, tier):
+        for variant in ("plain", "global_model", "two_model_dimensions", "two_global_dimensions", "single_dataset"):
+            yield {"variant": variant}
+
+    def build(self, S, case):
+        from contracts.configs import VP
+        from contracts.harness import DS, Cfg
+
+        T = (0.0, 1.0, 3.0)
+        v = case["variant"]
+        dss = [DS("ds1", T, (0.0, 1.0)), DS("ds2", T, (1.0, 2.0), megacomplexes=("m2",))]
+        kw = {}
+        if v == "global_model":
+            dss[1] = DS("ds2", T, (1.0, 2.0), megacomplexes=("m2",), global_megacomplexes=("gm1",))
+            kw["global_megacomplexes"] = {"gm1": ("g1",)}
+        if v == "single_dataset":
+            dss = dss[:1]
+        cfg = Cfg("linkable_" + v, tuple(dss), megacomplexes={"m1": (("s1", "s2"), False), "m2": (("s2", "s3"), False)}, groups={"default": (None, VP)}, **kw)
+        b = harness.build(S, cfg)
+        if v == "two_model_dimensions":
+            b.model.megacomplex["m2"].dimension = "spectral"
+            d = b.scheme.data["ds2"]
+            b.scheme.data["ds2"] = d.rename({"time": "spectral", "spectral": "time"})
+        if v == "two_global_dimensions":
+            b.scheme.data["ds2"] = b.scheme.data["ds2"].rename({"spectral": "pixel"})
+        return b
+
+    def call(self, S, case, b):
+        from glotaran.optimization.data_provider import DataProviderLinked
+        from glotaran.optimization.optimization_group import OptimizationGroup
+
+        harness.CURRENT["S"] = b.S
+        group = next(iter(b.model.get_dataset_groups().values()))
+        group.set_parameters(b.parameters)
+        linkable = group.is_linkable(b.parameters, b.scheme.data)
+        with harness.residual_stubs(b.S, S.symbolic):
+            og = OptimizationGroup(b.scheme, next(iter(b.model.get_dataset_groups().values())))
+        return {"linkable": linkable, "linked": isinstance(og._data_provider, DataProviderLinked)}
+
+    def observe(self, out):
+        return out if isinstance(out, Raised) else None
+
+    def ensures(self, S, case, b, out):
+        if isinstance(out, Raised):
+            yield "no_exception", False
+            return
+        want = case["variant"] in ("plain", "single_dataset")
+        yield "linkable_iff_no_global_model_one_model_dimension_one_global_dimension", out["linkable"] is want
+        yield "auto_link_follows_is_linkable", out["linked"] is want
